@@ -28,10 +28,10 @@ MEMORY_BASE = 2 * 1024 * 1024
 MEMORY_PER_BYTE = 8 * 1024
 RUN_TICKS = 8000000
 AMPLIFY_ROUNDS = 80
-CLIMB_MAX_LEN = 160
+CLIMB_MAX_LEN = 240
 CLIMB_KEEP = 6
 CLIMB_CHILDREN = 8
-CLIMB_GENERATIONS = 200
+CLIMB_GENERATIONS = 600
 CLIMB_PATIENCE = 25
 _RLIMIT_SET = [False]
 
@@ -88,7 +88,7 @@ class C08(Engine):
     def plan(self, tier, seed, runs):
         # (First: on a loaded machine the wall cap cuts the end of the plan.)
         items = [{'kind': 'climb', 'seed': mix(seed, 'C08-climb', index)}
-                 for index in range(max(16, runs // 12))]
+                 for index in range(max(16, runs * 3 // 20))]
         items.extend(Engine.plan(self, tier, seed, runs))
 
         return items
@@ -210,8 +210,14 @@ class C08(Engine):
         best_so_far = best_start
 
         for generation in range(CLIMB_GENERATIONS):
-            if result.violations or result.ticks > 3 * RUN_TICKS \
-                    or stale > CLIMB_PATIENCE:
+            # A climb that has made real progress gets more patience (and
+            # more simulated time) than one on a plainly linear decoder.
+            promising = best_so_far > 4 * best_start
+            patience = CLIMB_PATIENCE * (4 if promising else 1)
+            tick_cap = RUN_TICKS * (12 if promising else 3)
+
+            if result.violations or result.ticks > tick_cap \
+                    or stale > patience:
                 break
 
             parents = sorted(population, key=lambda d: (-population[d], d))
